@@ -244,4 +244,343 @@ theorem receive_scope (fo : Fields) (l copies : List Stmt) (d : List Bytes)
     simpa using scopeStmts_skip_all _ copies hs
 
 
+
+def Decl.scopeOk : Decl → Bool
+  | .func g => g.scopeOk
+  | _ => true
+
+theorem funcs_all (P : Func → Bool) : ∀ ds : List Decl,
+    (ds.filterMap Decl.func?).all P = ds.all (fun d => match d with | .func g => P g | _ => true)
+  | [] => rfl
+  | d :: ds => by
+    cases d <;> simp [List.filterMap_cons, Decl.func?, funcs_all P ds]
+
+theorem scopesOk_eq (f : GoFile) : scopesOk f = f.decls.all Decl.scopeOk := by
+  unfold scopesOk GoFile.funcs
+  rw [funcs_all]
+  have : (fun d => match d with | Decl.func g => Func.scopeOk g | _ => true) = Decl.scopeOk := by
+    funext d; cases d <;> rfl
+  rw [this]
+
+theorem scopeOk_recv (rn : Bytes) (ptr : Bool) (ty n : Bytes) (p rs : GoFields) (b : List Stmt) (e : List Bytes)
+    (h : rn.isEmpty = false) :
+    Func.scopeOk (mkFunc (some ⟨rn, ptr, ty⟩) n p rs b e) =
+      (distinct (rn :: (p.paramNames ++ rs.paramNames)) && scopeStmts (rn :: (p.paramNames ++ rs.paramNames)) b) := by
+  simp [Func.scopeOk, Func.signatureNames, mkFunc, h]
+
+theorem scopeOk_norecv (n : Bytes) (p rs : GoFields) (b : List Stmt) (e : List Bytes) :
+    Func.scopeOk (mkFunc none n p rs b e) =
+      (distinct (p.paramNames ++ rs.paramNames) && scopeStmts (p.paramNames ++ rs.paramNames) b) := by
+  simp [Func.scopeOk, Func.signatureNames, mkFunc]
+
+theorem declScope_func (g : Func) : Decl.scopeOk (.func g) = g.scopeOk := rfl
+theorem declScope_type (n : Bytes) (t : GoTy) : Decl.scopeOk (.type n t) = true := rfl
+theorem declScope_iface (n : Bytes) (ms : List IfaceMethod) : Decl.scopeOk (.iface n ms) = true := rfl
+
+/-! ## per view -/
+
+theorem aliasView_scope (m : Member) (l : List Decl) (hl : aliasView m = some l) : l.all Decl.scopeOk = true := by
+  cases m with
+  | alias n d ty =>
+    simp only [aliasView, Option.map_eq_some_iff] at hl
+    obtain ⟨g, _, rfl⟩ := hl
+    rfl
+  | method => simp [aliasView] at hl; subst hl; rfl
+  | error => simp [aliasView] at hl; subst hl; rfl
+
+theorem errorView_scope (m : Member) (l : List Decl) (hl : errorView m = some l) : l.all Decl.scopeOk = true := by
+  cases m with
+  | alias => simp [errorView] at hl; subst hl; rfl
+  | method => simp [errorView] at hl; subst hl; rfl
+  | error n d oty =>
+    simp only [errorView, Option.map_eq_some_iff] at hl
+    obtain ⟨g, _, rfl⟩ := hl
+    have h1 : defineOk [str "e"] [str "s"] = true := by decide
+    simp only [List.all_cons, List.all_nil, declScope_type, declScope_func, Bool.true_and, Bool.and_true]
+    rw [scopeOk_recv _ _ _ _ _ _ _ _ (by decide)]
+    simp only [paramNames_param, GoFields.paramNames, List.isEmpty_nil, if_true, List.append_nil, scope_define, h1,
+      Bool.true_and, Bool.and_eq_true]
+    refine ⟨by decide, ?_⟩
+    apply scopeStmts_skip_all
+    split
+    · simp [Stmt.declaresNothing, fieldUses_declaresNothing]
+    · rfl
+
+theorem dispatchErrorView_scope (iface : Bytes) (errors : List Member) :
+    Decl.scopeOk (dispatchErrorView iface errors) = true := by
+  have hc : ∀ (es : List Member) (d : List Bytes),
+      scopeStmts d ((es.map (dispatchErrorCaseView iface)).flatten) = true := by
+    intro es d
+    induction es with
+    | nil => simp [scopeStmts]
+    | cons e r ih =>
+      cases e with
+      | alias => simpa [dispatchErrorCaseView] using ih
+      | method => simpa [dispatchErrorCaseView] using ih
+      | error n d' oty =>
+        have v : validName (str "param") = true := by decide
+        have d1 : defineOk [] [str "errorRawParameters"] = true := by decide
+        have d2 : defineOk [str "param", str "errorRawParameters"] [str "err"] = true := by decide
+        have c1 : ([str "errorRawParameters"].contains (str "param")) = false := by decide
+        have ne : str "param" ≠ str "errorRawParameters" := by decide
+        simp [dispatchErrorCaseView, scope_case, scope_define, scope_var, scope_nil, v, d1, d2, c1, ih, ne]
+  have d0 : defineOk [str "err"] [str "e", str "ok"] = true := by decide
+  simp only [dispatchErrorView, declScope_func, scopeOk_norecv, paramNames_param, scope_define, d0, hc]
+  decide
+
+theorem callScope (n : Bytes) (fi fo : Fields) (params results : GoFields) (hi : FieldsGood fi) (ho : FieldsGood fo)
+    (e1 : paramFields (str "_in_") fi = some params) (e2 : paramFields (str "_out_") fo = some results) :
+    Func.scopeOk (mkFunc (some ⟨str "m", false, n ++ str "_methods"⟩) (str "Call")
+      ((ctxParam.append (param (str "c") connTy)).append params)
+      (results.append (param (str "err_") (tName "error")))
+      [.define [str "receive", str "err_"]]) = true := by
+  obtain ⟨_, _, p3⟩ := paramFields_spec _ suffix_in fi params hi e1
+  obtain ⟨_, _, r3⟩ := paramFields_spec _ suffix_out fo results ho e2
+  rw [scopeOk_recv _ _ _ _ _ _ _ _ (by decide)]
+  have hsig : str "m" :: ((ctxParam.append (param (str "c") connTy)).append params).paramNames
+      ++ (results.append (param (str "err_") (tName "error"))).paramNames
+      = mixed [str "m", str "ctx", str "c"] (str "_in_") fi.names (str "_out_") fo.names [str "err_"] := by
+    simp (config := {decide := true}) [paramNames_append, paramNames_param, paramNames_ctxParam, p3, r3, mixed]
+  have hsig' : str "m" :: (((ctxParam.append (param (str "c") connTy)).append params).paramNames
+      ++ (results.append (param (str "err_") (tName "error"))).paramNames)
+      = mixed [str "m", str "ctx", str "c"] (str "_in_") fi.names (str "_out_") fo.names [str "err_"] := by
+    rw [← hsig]; rfl
+  rw [hsig', nodup_mixed _ _ _ _ _ _ (by decide) hi.distinctNames ho.distinctNames, Bool.true_and, scope_define,
+    scope_nil, Bool.and_true]
+  apply defineOk_receive _ _ (by decide) (by decide)
+  exact not_mem_mixed _ _ _ _ _ _ _ (by decide)
+
+/-- the closure returned by Send / Upgrade: results `<out>_out_ …, F2` with `F2` fixed -/
+theorem closure_scope (fo : Fields) (results : GoFields) (F2 : GoFields) (F2n : List Bytes) (recv' copies rest : List Stmt)
+    (d : List Bytes) (ho : FieldsGood fo) (e2 : paramFields (str "_out_") fo = some results)
+    (e6 : receiveView (.struct fo) = some recv') (e7 : copyOutStmts fo = some copies)
+    (hF : F2.paramNames = F2n) (hok : mixedOk [] (str "_out_") noSuffix F2n = true)
+    (hout : (!([] ++ F2n).contains (str "out") && !endsWith (str "_out_") (str "out") && !endsWith noSuffix (str "out")) = true) :
+    scopeStmts d (.closure (param [] ctxTy) (results.append F2) (recv' ++ copies) :: rest) = scopeStmts d rest := by
+  obtain ⟨_, _, r3⟩ := paramFields_spec _ suffix_out fo results ho e2
+  have hn : (param [] ctxTy).paramNames ++ (results.append F2).paramNames
+      = mixed [] (str "_out_") fo.names noSuffix [] F2n := by
+    simp [paramNames_append, paramNames_param, r3, hF, mixed]
+  rw [scope_closure, hn, nodup_mixed _ _ _ _ _ _ hok ho.distinctNames rfl, Bool.true_and,
+    receive_scope fo recv' copies _ e6 e7 (not_mem_mixed _ _ _ _ _ _ _ hout), Bool.true_and]
+
+theorem sendScope (iface n : Bytes) (fi fo : Fields) (params results resultTys : GoFields)
+    (sendPro recv' copies : List Stmt) (hi : FieldsGood fi) (ho : FieldsGood fo)
+    (e1 : paramFields (str "_in_") fi = some params) (e2 : paramFields (str "_out_") fo = some results)
+    (e3 : resultTypeFields fo = some resultTys)
+    (e4 : sendPrologueView iface n (str "Send") (.struct fi) = some sendPro)
+    (e6 : receiveView (.struct fo) = some recv') (e7 : copyOutStmts fo = some copies) :
+    Func.scopeOk (mkFunc (some ⟨str "m", false, n ++ str "_methods"⟩) (str "Send")
+      (((ctxParam.append (param (str "c") connTy)).append flagsResult).append params)
+      ((param [] (.func ctxParam (resultTys.append ((param [] (tName "uint64")).append errorResult)))).append errorResult)
+      (sendPro ++ [.closure (param [] ctxTy) (results.append (flagsResult.append (param (str "err") (tName "error"))))
+          (recv' ++ copies)])) = true := by
+  obtain ⟨_, _, p3⟩ := paramFields_spec _ suffix_in fi params hi e1
+  rw [scopeOk_recv _ _ _ _ _ _ _ _ (by decide)]
+  have hsig : str "m" :: ((((ctxParam.append (param (str "c") connTy)).append flagsResult).append params).paramNames
+      ++ ((param [] (.func ctxParam (resultTys.append ((param [] (tName "uint64")).append errorResult)))).append
+          errorResult).paramNames)
+      = mixed [str "m", str "ctx", str "c", str "flags"] (str "_in_") fi.names noSuffix [] [] := by
+    have : flagsResult.paramNames = [str "flags"] := rfl
+    have : errorResult.paramNames = [] := rfl
+    simp (config := {decide := true}) [paramNames_append, paramNames_param, paramNames_ctxParam, p3, mixed, *]
+  rw [hsig, nodup_mixed _ _ _ _ _ _ (by decide) hi.distinctNames rfl, Bool.true_and]
+  rw [sendPrologue_scope iface n _ fi sendPro _ _ e4 (not_mem_mixed _ _ _ _ _ _ _ (by decide))
+    (not_mem_mixed _ _ _ _ _ _ _ (by decide))]
+  · rw [closure_scope fo results _ [str "flags", str "err"] recv' copies [] [] ho e2 e6 e7 rfl (by decide) (by decide)]
+    exact scope_nil _
+  · intro d'
+    rw [closure_scope fo results _ [str "flags", str "err"] recv' copies [] d' ho e2 e6 e7 rfl (by decide) (by decide),
+      closure_scope fo results _ [str "flags", str "err"] recv' copies [] [] ho e2 e6 e7 rfl (by decide) (by decide), scope_nil, scope_nil]
+
+theorem upgradeScope (iface n : Bytes) (fi fo : Fields) (params results : GoFields)
+    (upPro recv' copies : List Stmt) (hi : FieldsGood fi) (ho : FieldsGood fo)
+    (e1 : paramFields (str "_in_") fi = some params) (e2 : paramFields (str "_out_") fo = some results)
+    (e5 : sendPrologueView iface n (str "Upgrade") (.struct fi) = some upPro)
+    (e6 : receiveView (.struct fo) = some recv') (e7 : copyOutStmts fo = some copies) (R : GoTy) :
+    Func.scopeOk (mkFunc (some ⟨str "m", false, n ++ str "_methods"⟩) (str "Upgrade")
+      ((ctxParam.append (param (str "c") connTy)).append params)
+      ((param [] R).append errorResult)
+      (upPro ++ [.closure (param [] ctxTy)
+          (results.append (flagsResult.append ((param (str "conn") rwcTy).append (param (str "err") (tName "error")))))
+          (recv' ++ copies)])) = true := by
+  obtain ⟨_, _, p3⟩ := paramFields_spec _ suffix_in fi params hi e1
+  rw [scopeOk_recv _ _ _ _ _ _ _ _ (by decide)]
+  have hsig : str "m" :: (((ctxParam.append (param (str "c") connTy)).append params).paramNames
+      ++ ((param [] R).append errorResult).paramNames)
+      = mixed [str "m", str "ctx", str "c"] (str "_in_") fi.names noSuffix [] [] := by
+    have : errorResult.paramNames = [] := rfl
+    simp (config := {decide := true}) [paramNames_append, paramNames_param, paramNames_ctxParam, p3, mixed, *]
+  have hF : (flagsResult.append ((param (str "conn") rwcTy).append (param (str "err") (tName "error")))).paramNames
+      = [str "flags", str "conn", str "err"] := by decide
+  rw [hsig, nodup_mixed _ _ _ _ _ _ (by decide) hi.distinctNames rfl, Bool.true_and]
+  rw [sendPrologue_scope iface n _ fi upPro _ _ e5 (not_mem_mixed _ _ _ _ _ _ _ (by decide))
+    (not_mem_mixed _ _ _ _ _ _ _ (by decide))]
+  · rw [closure_scope fo results _ _ recv' copies [] [] ho e2 e6 e7 hF (by decide) (by decide)]
+    exact scope_nil _
+  · intro d'
+    rw [closure_scope fo results _ _ recv' copies [] d' ho e2 e6 e7 hF (by decide) (by decide),
+      closure_scope fo results _ _ recv' copies [] [] ho e2 e6 e7 hF (by decide) (by decide), scope_nil, scope_nil]
+
+theorem methodClientView_scope (iface : Bytes) (m : Member) (h : MemberGood m) (l : List Decl)
+    (hl : methodClientView iface m = some l) : l.all Decl.scopeOk = true := by
+  cases m with
+  | alias => simp [methodClientView] at hl; subst hl; rfl
+  | error => simp [methodClientView] at hl; subst hl; rfl
+  | method n d i o =>
+    obtain ⟨fi, fo, rfl, rfl, hi, ho⟩ := h.method
+    simp only [methodClientView] at hl
+    split at hl
+    · rename_i params results resultTys sendPro upPro recv' copies e1 e2 e3 e4 e5 e6 e7
+      injection hl with hl; subst hl
+      simp only [List.all_cons, List.all_nil, declScope_type, declScope_func, Bool.true_and, Bool.and_true,
+        Bool.and_eq_true]
+      refine ⟨?_, callScope n fi fo params results hi ho e1 e2,
+        sendScope iface n fi fo params results resultTys sendPro recv' copies hi ho e1 e2 e3 e4 e6 e7,
+        upgradeScope iface n fi fo params results upPro recv' copies hi ho e1 e2 e5 e6 e7 _⟩
+      rw [scopeOk_norecv]
+      simp [GoFields.paramNames, paramNames_param, distinct, scope_nil]
+    · exact absurd hl (by simp)
+
+/-- `Reply<X>`: receiver `c`, parameters `ctx`, `<field>_`; body `var out …` and copies -/
+theorem replyScope (n : Bytes) (fs : Fields) (ps : GoFields) (body : List Stmt) (outTy : GoTy) (cs tail : List Stmt)
+    (hg : FieldsGood fs) (e1 : paramFields (str "_") fs = some ps)
+    (hb : body = .var (str "out") outTy :: cs ++ tail ∨ body = [])
+    (hcs : cs.all Stmt.declaresNothing = true) (htail : tail.all Stmt.declaresNothing = true) :
+    Func.scopeOk (mkFunc varlinkCallRecv n (ctxParam.append ps) errorResult body) = true := by
+  obtain ⟨_, _, p3⟩ := paramFields_spec _ suffix_us fs ps hg e1
+  rw [varlinkCallRecv, scopeOk_recv _ _ _ _ _ _ _ _ (by decide)]
+  have hsig : str "c" :: ((ctxParam.append ps).paramNames ++ errorResult.paramNames)
+      = mixed [str "c", str "ctx"] (str "_") fs.names noSuffix [] [] := by
+    have : errorResult.paramNames = [] := rfl
+    simp (config := {decide := true}) [paramNames_append, paramNames_ctxParam, p3, mixed, *]
+  rw [hsig, nodup_mixed _ _ _ _ _ _ (by decide) hg.distinctNames rfl, Bool.true_and]
+  rcases hb with rfl | rfl
+  · have vout : validName (str "out") = true := by decide
+    have hn : (mixed [str "c", str "ctx"] (str "_") fs.names noSuffix [] []).contains (str "out") = false := by
+      simpa using not_mem_mixed (str "out") _ _ _ _ _ _ (by decide)
+    rw [List.cons_append, scope_var, vout, hn]
+    simp only [Bool.not_false, Bool.true_and]
+    apply scopeStmts_skip_all
+    simp [List.all_append, hcs, htail]
+  · exact scope_nil _
+
+theorem errorReplyView_scope (iface : Bytes) (m : Member) (h : MemberGood m) (l : List Decl)
+    (hl : errorReplyView iface m = some l) : l.all Decl.scopeOk = true := by
+  cases m with
+  | alias => simp [errorReplyView] at hl; subst hl; rfl
+  | method => simp [errorReplyView] at hl; subst hl; rfl
+  | error n d oty =>
+    obtain ⟨fs, e, hg⟩ := h.error
+    simp only [errorReplyView, e] at hl
+    split at hl
+    · rename_i ps c e1 e2
+      injection hl with hl; subst hl
+      simp only [List.all_cons, List.all_nil, declScope_func, Bool.and_true]
+      exact replyScope _ fs ps _ _ c _ hg e1 (Or.inl rfl) (copyInStmts_declaresNothing _ _ _ c e2) (by simp [Stmt.declaresNothing])
+    · exact absurd hl (by simp)
+
+theorem methodReplyView_scope (m : Member) (h : MemberGood m) (l : List Decl)
+    (hl : methodReplyView m = some l) : l.all Decl.scopeOk = true := by
+  cases m with
+  | alias => simp [methodReplyView] at hl; subst hl; rfl
+  | error => simp [methodReplyView] at hl; subst hl; rfl
+  | method n d i o =>
+    obtain ⟨fi, fo, rfl, rfl, hi, ho⟩ := h.method
+    simp only [methodReplyView] at hl
+    split at hl
+    · rename_i ps e1
+      split at hl
+      · split at hl
+        · rename_i t c e2 e3
+          injection hl with hl; subst hl
+          simp only [List.all_cons, List.all_nil, declScope_func, Bool.and_true]
+          exact replyScope _ fo ps _ t c [] ho e1 (Or.inl (by simp))
+            (copyInStmts_declaresNothing _ _ _ c e3) rfl
+        · exact absurd hl (by simp)
+      · injection hl with hl; subst hl
+        simp only [List.all_cons, List.all_nil, declScope_func, Bool.and_true]
+        exact replyScope _ fo ps _ (.name []) [] [] ho e1 (Or.inr rfl) rfl rfl
+    · exact absurd hl (by simp)
+
+theorem dummyView_scope (iface : Bytes) (m : Member) (h : MemberGood m) (l : List Decl)
+    (hl : dummyView iface m = some l) : l.all Decl.scopeOk = true := by
+  cases m with
+  | alias => simp [dummyView] at hl; subst hl; rfl
+  | error => simp [dummyView] at hl; subst hl; rfl
+  | method n d i o =>
+    obtain ⟨fi, fo, rfl, rfl, hi, ho⟩ := h.method
+    simp only [dummyView, Option.map_eq_some_iff] at hl
+    obtain ⟨ps, hps, rfl⟩ := hl
+    obtain ⟨_, _, p3⟩ := paramFields_spec _ suffix_us fi ps hi hps
+    simp only [List.all_cons, List.all_nil, declScope_func, Bool.and_true]
+    rw [varlinkIfaceRecv, scopeOk_recv _ _ _ _ _ _ _ _ (by decide)]
+    have hsig : str "s" :: ((callParams.append ps).paramNames ++ errorResult.paramNames)
+        = mixed [str "s", str "ctx", str "c"] (str "_") fi.names noSuffix [] [] := by
+      have : errorResult.paramNames = [] := rfl
+      have : callParams.paramNames = [str "ctx", str "c"] := rfl
+      simp (config := {decide := true}) [paramNames_append, p3, mixed, *]
+    rw [hsig, nodup_mixed _ _ _ _ _ _ (by decide) hi.distinctNames rfl, Bool.true_and, scope_strArg, scope_nil]
+
+theorem dispatchCaseView_scope (pkg : Bytes) (m : Member) (l : List Stmt) (rest : List Stmt) (d : List Bytes)
+    (hl : dispatchCaseView pkg m = some l) : scopeStmts d (l ++ rest) = scopeStmts d rest := by
+  have vin : validName (str "in") = true := by decide
+  have d1 : defineOk [str "in"] [str "err"] = true := by decide
+  cases m with
+  | alias => simp [dispatchCaseView] at hl; subst hl; rfl
+  | error => simp [dispatchCaseView] at hl; subst hl; rfl
+  | method n d' i o =>
+    simp only [dispatchCaseView] at hl
+    split at hl
+    · split at hl
+      · rename_i t as e1 e2
+        injection hl with hl; subst hl
+        simp [scope_case, scope_var, scope_define, scope_strArg, scope_nil, vin, d1, scopeStmts]
+      · exact absurd hl (by simp)
+    · injection hl with hl; subst hl
+      simp [scope_case, scope_nil, scopeStmts]
+
+theorem dispatchCases_scope (pkg : Bytes) : ∀ (ms : List Member) (cases rest : List Stmt) (d : List Bytes),
+    concatOptL (dispatchCaseView pkg) ms = some cases → scopeStmts d (cases ++ rest) = scopeStmts d rest
+  | [], cases, rest, d, h => by simp [concatOptL] at h; subst h; rfl
+  | m :: ms, cases, rest, d, h => by
+    simp only [concatOptL] at h
+    split at h
+    · rename_i x y hx hy
+      injection h with h; subst h
+      rw [List.append_assoc, dispatchCaseView_scope pkg m x _ d hx, dispatchCases_scope pkg ms y rest d hy]
+    · exact absurd h (by simp)
+
+/-- **scopesOk**: in every emitted function receiver, parameters, results and locals are pairwise distinct -/
+theorem scopesOk_genFile (t : Idl) (f : GoFile) (hm : ∀ m ∈ t.members, MemberGood m) (hf : genFile t = some f) :
+    scopesOk f = true := by
+  obtain ⟨body, aliases, errors, clients, ifaceMethods, errorReplies, methodReplies, dummies, cases,
+    _, e1, e2, e3, e4, e5, e6, e7, e8, rfl⟩ := genFile_inv hf
+  have sub : ∀ (p : Member → Bool), ∀ m ∈ t.members.filter p, MemberGood m :=
+    fun p m hm' => hm m (List.mem_filter.mp hm').1
+  have a1 := concatOptL_all aliasView Decl.scopeOk _ _ (fun m _ x hx => aliasView_scope m x hx) e1
+  have a2 := concatOptL_all errorView Decl.scopeOk _ _ (fun m _ x hx => errorView_scope m x hx) e2
+  have a3 := concatOptL_all (methodClientView t.name) Decl.scopeOk _ _
+    (fun m hm' x hx => methodClientView_scope _ m (sub _ m hm') x hx) e3
+  have a5 := concatOptL_all (errorReplyView t.name) Decl.scopeOk _ _
+    (fun m hm' x hx => errorReplyView_scope _ m (sub _ m hm') x hx) e5
+  have a6 := concatOptL_all methodReplyView Decl.scopeOk _ _
+    (fun m hm' x hx => methodReplyView_scope m (sub _ m hm') x hx) e6
+  have a7 := concatOptL_all (dummyView t.name) Decl.scopeOk _ _
+    (fun m hm' x hx => dummyView_scope _ m (sub _ m hm') x hx) e7
+  have a8 := dispatchCases_scope (pkgName t.name) t.methods cases [.caseBlock none []]
+    [str "s", str "ctx", str "call", str "methodname"] e8
+  rw [scopesOk_eq]
+  simp only [assembleFile, List.all_append, List.all_cons, List.all_nil, Bool.and_true, a1, a2, a3, a5, a6, a7,
+    dispatchErrorView_scope, declScope_type, declScope_iface, declScope_func, Bool.true_and]
+  simp only [varlinkIfaceRecv]
+  rw [scopeOk_recv _ _ _ _ _ _ _ _ (by decide), scopeOk_recv _ _ _ _ _ _ _ _ (by decide),
+    scopeOk_recv _ _ _ _ _ _ _ _ (by decide), scopeOk_norecv]
+  have hs : str "s" :: ((ctxParam.append ((param (str "call") (GoTy.qual (str "varlink") (str "Call"))).append
+      (param (str "methodname") (tName "string")))).paramNames ++ errorResult.paramNames)
+      = [str "s", str "ctx", str "call", str "methodname"] := by decide
+  rw [hs, a8]
+  simp (config := {decide := true}) [scope_case, scope_nil, scopeStmts, paramNames_param, GoFields.paramNames, distinct]
+
+
 end Varlink.Gen
